@@ -13,7 +13,10 @@ for p in props:
         na.append({"property_id": pid, "reason": pending.get(pid, "not claimed yet: the check for this property has not been built (design in DESIGN.md section 7)")})
         continue
     m = importlib.import_module("checks." + pid)
-    M = m.META
+    M = getattr(m, "META", {})
+    if not M.get("ready"):
+        na.append({"property_id": pid, "reason": pending.get(pid, "not claimed yet: the check for this property is still being built (design in DESIGN.md section 7)")})
+        continue
     checks.append({
         "property_id": pid,
         "quick_cmd": "bin/check %s quick" % pid,
